@@ -5,6 +5,11 @@ S222 == {<<2, 2, 2>>}
 S322 == {<<3, 2, 2>>}
 S232 == {<<2, 3, 2>>}
 S223 == {<<2, 2, 3>>}
+S422 == {<<4, 2, 2>>}                        \* thorough: all 2^16 masks
+S332 == {<<3, 3, 2>>}                        \* thorough: all 2^18 masks, two radii, one threshold
+\* Topo / Walk sub-models: larger and anisotropic volumes
+STopo == {<<5, 4, 3>>, <<3, 4, 5>>, <<4, 4, 4>>, <<6, 3, 2>>, <<2, 3, 6>>, <<7, 2, 2>>, <<3, 3, 3>>}
+SWalk == {<<4, 4, 3>>, <<3, 5, 3>>, <<2, 6, 4>>}
 SNone == {}
 \* Nb sub-model: volumes larger than any sphere, flat volumes, anisotropic volumes
 NbSmall == {<<2, 2, 2>>, <<3, 2, 2>>, <<4, 3, 2>>, <<1, 1, 5>>, <<5, 1, 1>>}
@@ -12,7 +17,18 @@ NbLarge == {<<7, 7, 7>>, <<6, 5, 4>>, <<4, 5, 6>>, <<9, 3, 2>>, <<2, 3, 9>>, <<1
 R4 == {<<1, 1>>, <<3, 2>>, <<2, 1>>, <<5, 2>>}
 \* radii around the lattice distances sqrt(1), sqrt(2), sqrt(3), 2, sqrt(5), sqrt(6), sqrt(8), 3, ... (r^2 compared exactly)
 RMany == {<<1, 2>>, <<1, 1>>, <<5, 4>>, <<7, 5>>, <<3, 2>>, <<17, 10>>, <<7, 4>>, <<2, 1>>, <<9, 4>>,
-          <<5, 2>>, <<14, 5>>, <<3, 1>>, <<7, 2>>}
+          <<5, 2>>, <<14, 5>>, <<3, 1>>, <<7, 2>>, <<2, 1, 1>>, <<5, 1, 1>>}      \* and the irrational sqrt(2), sqrt(5)
+\* <<k, m, 1>> is the irrational radius sqrt(k/m): lattice points at distance exactly == radius (sqrt 2, sqrt 3,
+\* sqrt 5, sqrt 6, sqrt(5/4)) and integer radii with off-axis points on the sphere (3: (2,2,1); 5: (3,4,0);
+\* 6: (4,4,2); 7: (6,3,2)), plus radii a hair below / above them
+R332 == {<<3, 2>>, <<2, 1, 1>>}
+RTopo == {<<1, 1>>, <<5, 4>>, <<2, 1, 1>>, <<3, 2>>, <<3, 1, 1>>, <<2, 1>>, <<5, 1, 1>>, <<5, 2>>, <<3, 1>>, <<7, 2>>}
+RWalk == {<<1, 1>>, <<2, 1, 1>>, <<3, 2>>, <<7, 4>>, <<2, 1>>, <<6, 1, 1>>, <<3, 1>>}
+RBound == {<<3, 1>>, <<299, 100>>, <<301, 100>>, <<5, 1>>, <<499, 100>>, <<6, 1>>, <<7, 1>>, <<13, 2>>,
+           <<2, 1, 1>>, <<3, 1, 1>>, <<5, 1, 1>>, <<6, 1, 1>>, <<5, 4, 1>>, <<14, 1, 1>>, <<45, 4, 1>>}
+NbHuge == {<<11, 9, 7>>, <<7, 9, 11>>}
+T1 == {<<3, 4>>}
+TTopo == {<<0, 1>>, <<1, 2>>, <<2, 3>>, <<9, 10>>, <<1, 1>>}
 T3 == {<<1, 2>>, <<3, 4>>, <<1, 1>>}
 TMany == {<<0, 1>>, <<1, 3>>, <<1, 2>>, <<2, 3>>, <<3, 4>>, <<9, 10>>, <<1, 1>>}
 \* <<shape, holeMod, radius, threshold>> : centres just below / at / above the chunking limit of 1000
